@@ -410,6 +410,17 @@ fn main() {
             cmp::<i64>(txt, "i64", false);
             cmp::<(bool, u8)>(txt, "(bool,u8)", false);
         }
+        // map keys are quoted numbers / bools: whitespace, signs, leading zeros, fractions inside the quotes
+        let inner = ["1", " 1", "1 ", "\\t1", "-1", "- 1", "01", "0", "-0", "1.0", "1e2", "", "+1", "true", " true", "true ", "false", "tru", "1\"", "\\u0031", "18446744073709551616", "-9223372036854775809"];
+        for k in inner.iter() {
+            for txt in [format!("{{\"{k}\":1}}"), format!("{{\"{k}\" : 1}}"), format!("{{\"7\":1,\"{k}\":2}}")] {
+                cmp::<BTreeMap<i64, u8>>(&txt, "BTreeMap<i64,u8>", false);
+                cmp::<BTreeMap<u8, u8>>(&txt, "BTreeMap<u8,u8>", false);
+                cmp::<BTreeMap<i128, u8>>(&txt, "BTreeMap<i128,u8>", false);
+                cmp::<BTreeMap<u128, u8>>(&txt, "BTreeMap<u128,u8>", false);
+                cmp::<BTreeMap<bool, u8>>(&txt, "BTreeMap<bool,u8>", false);
+            }
+        }
     }
     // C07: numbers against std
     if want("C07") {
